@@ -23,7 +23,7 @@ func genVersion(r *rng, id, name, tag int, big bool) *srvVersion {
 	tt := uint8(1 + r.intn(5))
 	zmax, _, _ := pmtiles.IDToZxy(es[len(es)-1].ID + uint64(es[len(es)-1].Run))
 	a := buildArchive(r, es, data, archOpts{tree: treeOpts{depth: depth, fan: 1 + r.intn(4), gzip: r.chance(50), shorthand: true, mixed: r.chance(30)},
-		tileType: tt, tileComp: 1, meta: fmt.Sprintf(`{"v":%d}`, tag), minZoom: 0, maxZoom: zmax, pad: r.intn(3) * 7})
+		tileType: tt, tileComp: uint8(1 + r.intn(4)), meta: fmt.Sprintf(`{"v":%d}`, tag), minZoom: 0, maxZoom: zmax, pad: r.intn(3) * 7})
 	return &srvVersion{id: id, name: name, tag: tag, arch: a}
 }
 
@@ -215,7 +215,7 @@ func c08systematic(r *rng, o *out, sets int) {
 			}
 			zmax, _, _ := pmtiles.IDToZxy(es[len(es)-1].ID + uint64(es[len(es)-1].Run))
 			a := buildArchive(vr, es, vr.bytes(int(off)), archOpts{tree: treeOpts{depth: vr.intn(2), fan: 2, gzip: vr.chance(50), shorthand: true},
-				tileType: 2, tileComp: 1, meta: fmt.Sprintf(`{"v":%d}`, tag), minZoom: 0, maxZoom: zmax})
+				tileType: 2, tileComp: uint8(1 + tag%4), meta: fmt.Sprintf(`{"v":%d}`, tag), minZoom: 0, maxZoom: zmax})
 			v := &srvVersion{id: len(sr.versions), name: 0, tag: tag, arch: a}
 			sr.versions = append(sr.versions, v)
 			return v
@@ -513,7 +513,7 @@ func srvReplay(line string) (string, []string) {
 		fmt.Sscanf(f[i+10], "%d", &nd)
 		i += 11 + 4*nd
 		defs = append(defs, vdef{name, tag, unhx(f[i])})
-		i += 5 // file, metadata offset and length, the two bodies
+		i += 6 // file, metadata offset and length, the two bodies, the content headers
 	}
 	// steps
 	steps := strings.Split(line[strings.Index(line, " E ")+3:], " ; ")[1:]
